@@ -4,7 +4,11 @@ C15 — Names: only owners bind, change, delete; lookups agree; resolution unamb
 Property theorems only (helper lemmas live in `PvProofs/Lemmas/Name*.lean`).  The model is
 `PvModel.Name` (x/name keeper, msg server, key derivation); `cfg.H` is the hash of the store key
 (`0x03 ‖ sha256`), an arbitrary function: where a theorem needs collision resistance it is the
-HYPOTHESIS `Function.Injective cfg.H`, never an axiom.  All theorems are for every configuration
+HYPOTHESIS `NoHashCollision cfg names` — `cfg.H` is injective ON THE FINITE LIST of key pre-images
+of `names` (the names stored in the state and the names the messages mention) — never an axiom and
+never `Function.Injective cfg.H`, which is false of SHA-256 (`noHashCollision_of_injective`
+recovers the idealised statements; `trunc_not_injective` shows a non-injective hash satisfies the
+hypotheses).  All theorems are for every configuration
 (limits, authority, address predicates, canonical-spelling function), every state / every history
 of messages, and — for the statements about reachable states — every genesis file `InitGenesis`
 accepts as the start of the history (`initGenesis cfg {} gs = .ok st0`; `gs = []` is the empty
@@ -20,7 +24,7 @@ different segmentations of one byte string share a key.  `key_collision` is the 
 profiles), `key_collision_iff_resegmentation` the exact collision condition.  Recorded as known
 finding `C15-key-collision`.
 -/
-import PvProofs.Lemmas.NameRoot
+import PvProofs.Lemmas.NameNames
 import Mathlib.Data.List.Nodup
 
 namespace PvProofs.C15
@@ -47,10 +51,11 @@ mentions: a successful `BindName` binds a name of at least two segments whose IM
 (the bound name minus its first segment) is the normalized parent name of the message, resolves
 in the state before, and — if restricted — belongs to the signer.  This is what
 `MsgBindNameRequest.ValidateBasic` refusing a record name with a "." buys: the bound name cannot
-reach below any other name than the checked parent.  (Reachable state, collision-free hash: the
-raw parent name and its normalized form then have the same key.) -/
-theorem bind_under_immediate_parent (hH : Function.Injective cfg.H) {st st' : State κ}
-    (hI : Inv cfg st) {pn rn : Bytes} {pa ra : Addr} {r : Bool}
+reach below any other name than the checked parent.  (Reachable state; the hash does not collide
+on the parent name as written and the stored names: the raw parent name and its normalized form
+then have the same key.) -/
+theorem bind_under_immediate_parent {st st' : State κ} {pn rn : Bytes} {pa ra : Addr} {r : Bool}
+    (hH : NoHashCollision cfg (pn :: storedNames st)) (hI : Inv cfg st)
     (h : step cfg st (.bind pn pa rn ra r) = .ok st') :
     ∃ name, normalize cfg (rn ++ dot :: pn) = .ok name ∧ 2 ≤ (splitDot name).length ∧
       immediateParent name = normalizeName pn ∧
@@ -79,7 +84,8 @@ theorem bind_under_immediate_parent (hH : Function.Injective cfg.H) {st st' : St
     have : 0 < ((splitDot pn).map normSeg).length := List.length_pos_iff.mpr hne
     omega
   · obtain ⟨k, hk, hg⟩ := getRecordByName_some cfg hpar
-    have hkey := key_normalizeName_of_resolves cfg hH hk (hI.keyed k par hg) (hI.lower cfg k par hg)
+    have hkey := key_normalizeName_of_resolves cfg hH List.mem_cons_self
+      (List.mem_cons_of_mem _ (mem_storedNames_of_get hg)) hk (hI.keyed k par hg) (hI.lower cfg k par hg)
     rw [hip, getRecordByName_eq cfg hkey, hg]
     simp only [bindAllowed, Bool.or_eq_true, Bool.not_eq_true', beq_iff_eq]
     cases hr : par.restricted with
@@ -141,29 +147,59 @@ theorem delete_effect {st st' : State κ} {n : Bytes} {a : Addr}
   obtain ⟨name, k, rec, hn, hk, -, -, rfl⟩ := deleteName_ok cfg (step_ok_cases cfg h)
   exact ⟨name, k, hn, hk, get_del_self _ _, fun k' hk' => get_del_ne _ hk'⟩
 
-/-- `CreateRootName` never touches an existing record; what it adds is bound to the given owner,
-with the given restriction, under a name `Normalize` accepts. -/
+/-- What `CreateRootName` changes, exactly: it never touches an existing record, and every record
+it adds is `⟨t, canonical owner, restriction⟩` for a level `t` of the name (`rootSuffixes n` =
+`Op.targets`: the normalized suffixes `c`, `b.c`, `a.b.c` of `a.b.c`), stored under the key of
+`t`, with `t` a name `Normalize` accepts — nothing else is created, nothing removed.  That every
+level IS bound afterwards is `root_binds_every_level`. -/
 theorem root_effect {st st' : State κ} {a o : Addr} {n : Bytes} {r : Bool}
     (h : step cfg st (.root a n o r) = .ok st') :
     (∀ k e, get st.recs k = some e → get st'.recs k = some e) ∧
     (∀ k r', get st'.recs k = some r' → get st.recs k = some r' ∨
-      (get st.recs k = none ∧ r'.addr = cfg.canon o ∧ r'.restricted = r ∧
-        IsNormalized cfg r'.name)) := by
+      (get st.recs k = none ∧ ∃ t ∈ (Op.root a n o r).targets, r' = ⟨t, cfg.canon o, r⟩ ∧
+        getNameKeyPrefix cfg t = .ok k ∧ IsNormalized cfg t)) := by
   obtain ⟨-, -, hl⟩ := createRootNameMsg_ok cfg (step_ok_cases cfg h)
-  exact createRootLoop_effect cfg _ _ _ _ _ _ hl
+  refine ⟨(createRootLoop_effect cfg _ _ _ _ _ _ hl).1, fun k r' hg => ?_⟩
+  rcases createRootLoop_created cfg _ _ _ _ _ _ hl k r' hg with h1 | ⟨h0, x, hx, rfl, hk⟩
+  · exact Or.inl h1
+  · refine Or.inr ⟨h0, normalizeName x, mem_rootSuffixes.mpr ⟨x, hx, rfl⟩, rfl, hk, ?_⟩
+    rcases (createRootLoop_effect cfg _ _ _ _ _ _ hl).2 k _ hg with h1 | ⟨-, -, -, hn⟩
+    · rw [h0] at h1; cases h1
+    · exact hn
+
+/-- `CreateRootName` binds EVERY level of the name it is given: after it each level `t` (each
+normalized suffix, `Op.targets`) has a key and resolves — to the record that was there before
+(unchanged), or to a new record owned by the given owner with the given restriction (by
+`root_effect` that new record is `⟨t', owner, restriction⟩` for a level `t'` with the key of `t`;
+`t' = t` unless two levels of the one name share a key).  (Reachable state; no hash collision
+among the levels as written / normalized and the stored names.) -/
+theorem root_binds_every_level {st st' : State κ} {a o : Addr} {n : Bytes} {r : Bool}
+    (hH : NoHashCollision cfg ((Op.root a n o r).names ++ storedNames st)) (hI : Inv cfg st)
+    (h : step cfg st (.root a n o r) = .ok st') :
+    ∀ t ∈ (Op.root a n o r).targets, ∃ k r', getNameKeyPrefix cfg t = .ok k ∧
+      get st'.recs k = some r' ∧
+      (get st.recs k = some r' ∨
+        (get st.recs k = none ∧ r'.addr = cfg.canon o ∧ r'.restricted = r)) := by
+  obtain ⟨-, -, hl⟩ := createRootNameMsg_ok cfg (step_ok_cases cfg h)
+  intro t ht
+  obtain ⟨x, hx, rfl⟩ := mem_rootSuffixes.mp ht
+  exact createRootLoop_all_bound cfg hH _ _ _ _ _ _ hI (rootPath_mem_names st a o n r)
+    (fun y hy => List.mem_append_right _ hy) hl x hx
 
 /-- `CreateRootName` establishes every level of the name it is given: a name it brings into being
 with two or more segments has its immediate parent bound afterwards (created by the same message,
 or there before) — "a name can be bound only under an existing parent" for root creation.
-(Reachable state, collision-free hash: an existing level is looked up under the raw spelling.) -/
-theorem root_establishes_all_levels (hH : Function.Injective cfg.H) {st st' : State κ}
-    (hI : Inv cfg st) {a o : Addr} {n : Bytes} {r : Bool}
+(Reachable state; no hash collision among the levels and the stored names: an existing level is
+looked up under the raw spelling.) -/
+theorem root_establishes_all_levels {st st' : State κ} {a o : Addr} {n : Bytes} {r : Bool}
+    (hH : NoHashCollision cfg ((Op.root a n o r).names ++ storedNames st)) (hI : Inv cfg st)
     (h : step cfg st (.root a n o r) = .ok st') :
     ∀ k r', get st'.recs k = some r' → get st.recs k = none → 2 ≤ (splitDot r'.name).length →
       (getRecordByName cfg st' (immediateParent r'.name)).isSome = true := by
   obtain ⟨-, -, hl⟩ := createRootNameMsg_ok cfg (step_ok_cases cfg h)
   exact createRootLoop_levels cfg hH _ _ _ [] st st'
-    (fun s hs => splitDot_dotfree n s (List.mem_reverse.mp hs)) hI (by decide) (Or.inl rfl) hl
+    (fun s hs => splitDot_dotfree n s (List.mem_reverse.mp hs)) hI (by decide)
+    (rootPath_mem_names st a o n r) (fun y hy => List.mem_append_right _ hy) (Or.inl rfl) hl
 
 /-- A rejected message changes nothing (the model's `apply` drops the failed transaction; on the
 implementation this is checked after every rejected message of the correspondence run). -/
@@ -178,9 +214,9 @@ theorem canonStored_step (hC : ∀ a, cfg.canon (cfg.canon a) = cfg.canon a) {st
   intro k r' hg
   cases op with
   | root a n o r =>
-    rcases (root_effect cfg h).2 k r' hg with h1 | ⟨-, ha, -⟩
+    rcases (root_effect cfg h).2 k r' hg with h1 | ⟨-, t, -, rfl, -⟩
     · exact hS k r' h1
-    · rw [ha, hC]
+    · exact hC o
   | bind pn pa rn ra r =>
     obtain ⟨name, k0, -, -, -, hnew, hframe⟩ := bind_effect cfg h
     by_cases hk : k = k0
@@ -212,12 +248,14 @@ theorem canonStored_run (hC : ∀ a, cfg.canon (cfg.canon a) = cfg.canon a) (ops
 
 /-- Records never change except by their owner or governance: if a message alters or removes an
 existing record, its signer — the address the signer string parses to — is that record's owner,
-or the signer is the governance authority.  (In a reachable state, for a collision-free hash;
+or the signer is the governance authority.  (In a reachable state; the hash does not collide on
+the names of the message and the stored names;
 `ModifyName` looks the record up under the raw name but writes under the normalized one, the two
 keys agree because stored names are lower-case; it compares the authority string as written with
 the stored owner string, which is canonical.) -/
-theorem existing_record_changed_only_by_owner_or_gov (hH : Function.Injective cfg.H)
-    {st st' : State κ} (hI : Inv cfg st) (hS : CanonStored cfg st) {op : Op}
+theorem existing_record_changed_only_by_owner_or_gov
+    {st st' : State κ} {op : Op} (hH : NoHashCollision cfg (op.names ++ storedNames st))
+    (hI : Inv cfg st) (hS : CanonStored cfg st)
     (h : step cfg st op = .ok st')
     {k : κ} {e : Record} (hg : get st.recs k = some e) (hch : get st'.recs k ≠ some e) :
     cfg.canon op.signer = e.addr ∨ op.signer = cfg.authority := by
@@ -238,7 +276,9 @@ theorem existing_record_changed_only_by_owner_or_gov (hH : Function.Injective cf
     by_cases hk : k = k0
     · subst hk
       obtain ⟨k1, hk1, hg1⟩ := getRecordByName_some cfg hex
-      have hkey := key_normalizeName_of_resolves cfg hH hk1 (hI.keyed k1 ex hg1) (hI.lower cfg k1 ex hg1)
+      have hkey := key_normalizeName_of_resolves cfg hH (name := n) (by simp [Op.names, Op.lookups])
+        (List.mem_append_right _ (mem_storedNames_of_get hg1)) hk1 (hI.keyed k1 ex hg1)
+        (hI.lower cfg k1 ex hg1)
       rw [← normalize_eq_normalizeName cfg hn, hk0] at hkey
       cases hkey
       rw [hg1] at hg; cases hg
@@ -397,25 +437,29 @@ theorem resolve_same_key {gs : List Record} {st0 : State κ}
   rw [hk]; exact records_keyed_by_own_name cfg hg0 ops k r hg
 
 /-- A record outlives every history in which neither its owner (under any spelling of his
-address) nor governance signs anything. -/
-theorem record_persists_without_owner_or_gov (hH : Function.Injective cfg.H)
+address) nor governance signs anything.  (The hash does not collide on the finitely many names
+involved: those stored at the start and those the messages of the history mention.) -/
+theorem record_persists_without_owner_or_gov
     (hC : ∀ a, cfg.canon (cfg.canon a) = cfg.canon a) {k : κ} {e : Record}
-    (ops : List Op) : ∀ {st : State κ}, Inv cfg st → CanonStored cfg st → get st.recs k = some e →
+    (ops : List Op) : ∀ {st : State κ}, NoHashCollision cfg (storedNames st ++ ops.flatMap Op.names) →
+      Inv cfg st → CanonStored cfg st → get st.recs k = some e →
       (∀ op ∈ ops, cfg.canon op.signer ≠ e.addr ∧ op.signer ≠ cfg.authority) →
       get (run cfg st ops).recs k = some e := by
   induction ops with
-  | nil => intro st _ _ hg _; exact hg
+  | nil => intro st _ _ _ hg _; exact hg
   | cons op ops ih =>
-    intro st hI hS hg hs
+    intro st hH hI hS hg hs
     have hop := hs op (by simp)
-    refine ih (inv_apply cfg hI op) (canonStored_apply cfg hC hS op) ?_
+    have hH1 := noHashCollision_head cfg op ops hH
+    refine ih (noHashCollision_apply cfg hI op ops hH) (inv_apply cfg hI op)
+      (canonStored_apply cfg hC hS op) ?_
       (fun o ho => hs o (List.mem_cons_of_mem _ ho))
     unfold apply
     split
     · rename_i st' hstep
       by_cases hch : get st'.recs k = some e
       · exact hch
-      · rcases existing_record_changed_only_by_owner_or_gov cfg hH hI hS hstep hg hch with h1 | h2
+      · rcases existing_record_changed_only_by_owner_or_gov cfg hH1 hI hS hstep hg hch with h1 | h2
         · exact absurd h1 hop.1
         · exact absurd h2 hop.2
     · exact hg
@@ -474,9 +518,9 @@ theorem flatten_inj_of_lengths {α : Type} : ∀ (l1 l2 : List (List α)),
     rw [h1, flatten_inj_of_lengths xs ys hl.2 h2]
 
 omit [DecidableEq κ] in
-/-- The exact collision condition: with a collision-free hash, two names share a store key iff
-their reversed segments concatenate to the same byte string. -/
-theorem key_collision_iff_resegmentation (hH : Function.Injective cfg.H) {n1 n2 p1 p2 : Bytes}
+/-- The exact collision condition: if the hash does not collide on the pre-images of these two
+names, they share a store key iff their reversed segments concatenate to the same byte string. -/
+theorem key_collision_iff_resegmentation {n1 n2 p1 p2 : Bytes} (hH : NoHashCollision cfg [n1, n2])
     (h1 : preimage n1 = .ok p1) (h2 : preimage n2 = .ok p2) :
     getNameKeyPrefix cfg n1 = getNameKeyPrefix cfg n2 ↔
       (segments n1).reverse.flatten = (segments n2).reverse.flatten := by
@@ -490,13 +534,14 @@ theorem key_collision_iff_resegmentation (hH : Function.Injective cfg.H) {n1 n2 
     · cases h2; rfl
   simp only [getNameKeyPrefix, h1, h2, Except.map, ← e1, ← e2]
   constructor
-  · intro h; exact hH (by injection h)
+  · intro h; exact hH.eq cfg (by simp) (by simp) h1 h2 (by injection h)
   · intro h; rw [h]
 
+omit [DecidableEq κ] in
 /-- PARTIAL (full statement, "different valid names have different keys", is false —
 `key_collision`): names with the same segment-length profile and the same key have the same
-segments, for a collision-free hash. -/
-theorem key_injective_partial (hH : Function.Injective cfg.H) {n1 n2 : Bytes} {k : κ}
+segments, if the hash does not collide on the pre-images of these two names. -/
+theorem key_injective_partial {n1 n2 : Bytes} (hH : NoHashCollision cfg [n1, n2]) {k : κ}
     (h1 : getNameKeyPrefix cfg n1 = .ok k) (h2 : getNameKeyPrefix cfg n2 = .ok k)
     (hp : profile n1 = profile n2) : segments n1 = segments n2 := by
   unfold getNameKeyPrefix at h1 h2
@@ -529,10 +574,11 @@ theorem segments_of_normalized {n : Bytes} (hn : IsNormalized cfg n) : segments 
   intro seg _
   exact trimSpace_normSeg seg
 
+omit [DecidableEq κ] in
 /-- PARTIAL, on names as strings: two valid normalized names (accepted unchanged by
 `Keeper.Normalize`) with the same segment-length profile and the same store key are the same
-name, for a collision-free hash. -/
-theorem key_injective_normalized_partial (hH : Function.Injective cfg.H) {n1 n2 : Bytes} {k : κ}
+name, if the hash does not collide on the pre-images of these two names. -/
+theorem key_injective_normalized_partial {n1 n2 : Bytes} (hH : NoHashCollision cfg [n1, n2]) {k : κ}
     (hn1 : IsNormalized cfg n1) (hn2 : IsNormalized cfg n2)
     (h1 : getNameKeyPrefix cfg n1 = .ok k) (h2 : getNameKeyPrefix cfg n2 = .ok k)
     (hp : profile n1 = profile n2) : n1 = n2 := by
@@ -542,14 +588,209 @@ theorem key_injective_normalized_partial (hH : Function.Injective cfg.H) {n1 n2 
 
 /-- PARTIAL (unambiguous resolution holds between names of equal profile): after every history,
 if a valid normalized name resolves to a record whose name has the same segment-length profile,
-that record carries this very name. -/
-theorem resolution_unambiguous_partial (hH : Function.Injective cfg.H) {gs : List Record}
+that record carries this very name.  (No hash collision among the queried name and the stored
+names.) -/
+theorem resolution_unambiguous_partial {gs : List Record}
     {st0 : State κ} (hg0 : initGenesis cfg {} gs = .ok st0) (ops : List Op) {n : Bytes}
+    (hH : NoHashCollision cfg (n :: storedNames (run cfg st0 ops)))
     {r : Record} (hn : IsNormalized cfg n) (h : getRecordByName cfg (run cfg st0 ops) n = some r)
     (hp : profile r.name = profile n) : ResolvesOwn n r := by
   obtain ⟨k, hk, hg⟩ := getRecordByName_some cfg h
-  exact key_injective_normalized_partial cfg hH (stored_names_normalized cfg hg0 ops k r hg) hn
+  have hH2 : NoHashCollision cfg [r.name, n] := hH.mono cfg (by
+    intro x hx
+    rcases List.mem_cons.mp hx with rfl | hx
+    · exact List.mem_cons_of_mem _ (mem_storedNames_of_get hg)
+    · rw [List.mem_singleton.mp hx]; exact List.mem_cons_self)
+  exact key_injective_normalized_partial cfg hH2 (stored_names_normalized cfg hg0 ops k r hg) hn
     (records_keyed_by_own_name cfg hg0 ops k r hg) hk hp
+
+/-! ### every valid name has a key; stored names are pairwise distinct -/
+
+omit [DecidableEq κ] in
+/-- A name `Keeper.Normalize` accepts unchanged has a store key (`GetNameKeyPrefix` succeeds on
+it; its pre-image is the reversed concatenation of its segments) — provided the configured minimum
+segment length is at least 1.  (With `minSeg = 0` the statement is false: `valid_name_without_key`.) -/
+theorem normalized_name_has_key (hmin : 1 ≤ cfg.minSeg) {n : Bytes} (hn : IsNormalized cfg n) :
+    preimage n = .ok (splitDot n).reverse.flatten ∧
+      getNameKeyPrefix cfg n = .ok (cfg.H (splitDot n).reverse.flatten) := by
+  have hseg := segments_of_normalized cfg hn
+  have hlim := (normalize_within_limits cfg hn).2.2.1
+  have hp : preimage n = .ok (splitDot n).reverse.flatten := by
+    rw [preimage_eq]
+    have hs : (splitDot n).map trimSpace = splitDot n := hseg
+    rw [hs, if_neg]
+    simp only [List.any_eq_true, List.isEmpty_iff, not_exists, not_and]
+    intro seg hm he
+    have := (hlim seg hm).1
+    rw [he] at this; simp at this; omega
+  exact ⟨hp, by simp [getNameKeyPrefix, hp, Except.map]⟩
+
+omit [DecidableEq κ] in
+/-- NEGATION for `minSeg = 0` (a parameter value `Params` does not exclude): the empty name and
+`a..b`-style names with an empty segment pass `Keeper.Normalize` but `GetNameKeyPrefix` refuses
+them — such a name can never be bound (no harm: `SetNameRecord` returns the key error). -/
+theorem valid_name_without_key (cfg : Cfg κ) (h0 : cfg.minSeg = 0) (hl : 1 ≤ cfg.maxLevels) :
+    IsNormalized cfg [] ∧ getNameKeyPrefix cfg [] = .error .nameInvalid := by
+  have l1 : ¬ 1 > cfg.maxLevels := by omega
+  constructor
+  · have e : normalizeName [] = [] := by decide
+    have v : validateName [] = true := by decide
+    have s : splitDot [] = [[]] := by decide
+    simp [IsNormalized, normalize, e, v, s, h0, l1]
+  · rfl
+
+/-- The names of the stored records are pairwise distinct (no name is stored twice) — after every
+genesis import and every history. -/
+theorem stored_names_distinct {gs : List Record} {st0 : State κ}
+    (hg : initGenesis cfg {} gs = .ok st0) (ops : List Op) :
+    (storedNames (run cfg st0 ops)).Nodup := by
+  have hI := inv_reachable cfg hg ops
+  have hrecs : (run cfg st0 ops).recs.Nodup := List.Nodup.of_map _ hI.recsNodup
+  unfold storedNames allRecords
+  rw [List.map_map]
+  refine List.Nodup.map_on ?_ hrecs
+  rintro ⟨k1, r1⟩ h1 ⟨k2, r2⟩ h2 (heq : r1.name = r2.name)
+  have g1 := (mem_iff_get hI.recsNodup k1 r1).mp h1
+  have g2 := (mem_iff_get hI.recsNodup k2 r2).mp h2
+  have e1 := hI.keyed k1 r1 g1
+  have e2 := hI.keyed k2 r2 g2
+  rw [heq, e2] at e1
+  cases e1
+  rw [g1] at g2; cases g2; rfl
+
+/-! ### names, not store entries: owning one name confers no authority over another -/
+
+omit [DecidableEq κ] in
+/-- names whose reversed segments concatenate to different byte strings have different keys, if
+the hash does not collide on these two pre-images -/
+theorem keys_ne_of_diff {t n : Bytes} (hH : NoHashCollision cfg [t, n]) {kt kn : κ}
+    (ht : getNameKeyPrefix cfg t = .ok kt) (hn : getNameKeyPrefix cfg n = .ok kn)
+    (hdiff : (segments t).reverse.flatten ≠ (segments n).reverse.flatten) : kt ≠ kn := by
+  intro e
+  subst e
+  cases hp1 : preimage t with
+  | error e => simp [getNameKeyPrefix, hp1, Except.map] at ht
+  | ok p1 =>
+    cases hp2 : preimage n with
+    | error e => simp [getNameKeyPrefix, hp2, Except.map] at hn
+    | ok p2 =>
+      exact hdiff ((key_collision_iff_resegmentation cfg hH hp1 hp2).mp (by rw [ht, hn]))
+
+/-- FRAME, on names: a message none of whose target names is a re-segmentation of `n` (same
+reversed concatenation = the key collision of `key_collision`) leaves what `n` resolves to exactly
+as it was — whoever signs it, whatever it does to its own targets.  (Any state; the hash does not
+collide on `n` and the targets.) -/
+theorem message_about_other_names_leaves_name {st st' : State κ} {op : Op} {n : Bytes}
+    (hH : NoHashCollision cfg (n :: op.targets)) (h : step cfg st op = .ok st')
+    (hdiff : ∀ t ∈ op.targets, (segments t).reverse.flatten ≠ (segments n).reverse.flatten) :
+    getRecordByName cfg st' n = getRecordByName cfg st n := by
+  cases hkn : getNameKeyPrefix cfg n with
+  | error e => simp [getRecordByName, hkn]
+  | ok kn =>
+    rw [getRecordByName_eq cfg hkn, getRecordByName_eq cfg hkn]
+    have hne : ∀ t ∈ op.targets, ∀ kt, getNameKeyPrefix cfg t = .ok kt → kn ≠ kt := by
+      intro t ht kt hkt e
+      refine keys_ne_of_diff cfg (hH.mono cfg ?_) hkt hkn (hdiff t ht) e.symm
+      intro x hx
+      rcases List.mem_cons.mp hx with rfl | hx
+      · exact List.mem_cons_of_mem _ ht
+      · rw [List.mem_singleton.mp hx]; exact List.mem_cons_self
+    cases op with
+    | root a nn o r =>
+      obtain ⟨hkeep, hnew⟩ := root_effect cfg h
+      cases hg : get st.recs kn with
+      | some e => exact hkeep kn e hg
+      | none =>
+        cases hg' : get st'.recs kn with
+        | none => rfl
+        | some r' =>
+          rcases hnew kn r' hg' with h1 | ⟨-, t, ht, -, hkt, -⟩
+          · rw [hg] at h1; cases h1
+          · exact absurd rfl (hne t ht kn hkt)
+    | bind pn pa rn ra r =>
+      obtain ⟨name, k0, hnm, hk0, -, -, hframe⟩ := bind_effect cfg h
+      exact hframe kn (hne name (by simp [Op.targets, normalize_eq_normalizeName cfg hnm]) k0 hk0)
+    | modify a nn ad r =>
+      obtain ⟨name, k0, hnm, hk0, -, hframe⟩ := modify_effect cfg h
+      exact hframe kn (hne name (by simp [Op.targets, normalize_eq_normalizeName cfg hnm]) k0 hk0)
+    | delete nn a =>
+      obtain ⟨name, k0, hnm, hk0, -, hframe⟩ := delete_effect cfg h
+      exact hframe kn (hne name (by simp [Op.targets, normalize_eq_normalizeName cfg hnm]) k0 hk0)
+
+/-- the same over every history: messages about other names (no target a re-segmentation of `n`)
+never change what `n` resolves to, whoever signs them -/
+theorem messages_about_other_names_leave_name {n : Bytes} (ops : List Op) : ∀ {st : State κ},
+    NoHashCollision cfg (n :: ops.flatMap Op.targets) →
+    (∀ op ∈ ops, ∀ t ∈ op.targets, (segments t).reverse.flatten ≠ (segments n).reverse.flatten) →
+    getRecordByName cfg (run cfg st ops) n = getRecordByName cfg st n := by
+  induction ops with
+  | nil => intro st _ _; rfl
+  | cons op ops ih =>
+    intro st hH hd
+    have hH' : NoHashCollision cfg (n :: ops.flatMap Op.targets) := hH.mono cfg (by
+      intro x hx
+      rcases List.mem_cons.mp hx with rfl | hx
+      · exact List.mem_cons_self
+      · exact List.mem_cons_of_mem _ (by simp [List.flatMap_cons, hx]))
+    show getRecordByName cfg (run cfg (apply cfg st op) ops) n = _
+    rw [ih hH' (fun o ho => hd o (List.mem_cons_of_mem _ ho))]
+    unfold apply
+    split
+    · rename_i st' hstep
+      refine message_about_other_names_leaves_name cfg (hH.mono cfg ?_) hstep (hd op (by simp))
+      intro x hx
+      rcases List.mem_cons.mp hx with rfl | hx
+      · exact List.mem_cons_self
+      · exact List.mem_cons_of_mem _ (by simp [List.flatMap_cons, hx])
+    · rfl
+
+/-- AUTHORITY, on names: what a name resolves to — owner, restriction, stored name — survives
+every history in which neither the owner of that record (under any spelling of his address) nor
+governance signs anything; whatever names the other signers own and whatever they do with them. -/
+theorem name_changed_only_by_its_owner_or_gov
+    (hC : ∀ a, cfg.canon (cfg.canon a) = cfg.canon a) {st : State κ} {n : Bytes} {e : Record}
+    (ops : List Op) (hH : NoHashCollision cfg (storedNames st ++ ops.flatMap Op.names))
+    (hI : Inv cfg st) (hS : CanonStored cfg st) (hn : getRecordByName cfg st n = some e)
+    (hs : ∀ op ∈ ops, cfg.canon op.signer ≠ e.addr ∧ op.signer ≠ cfg.authority) :
+    getRecordByName cfg (run cfg st ops) n = some e := by
+  obtain ⟨k, hk, hg⟩ := getRecordByName_some cfg hn
+  rw [getRecordByName_eq cfg hk]
+  exact record_persists_without_owner_or_gov cfg hC ops hH hI hS hg hs
+
+/-- "Two different valid names never resolve to the same record, so owning one name never confers
+authority over another", as far as it is true: let `n1`, `n2` resolve (to `e1`, `e2`), let their
+reversed segments concatenate to DIFFERENT byte strings (they are not the two sides of a key
+collision), and let the owner of `n1` be neither the owner of `n2` nor governance.  Then `n1` and
+`n2` are different store entries, and after every history signed — every message of it — by the
+owner of `n1` (any spelling of his address; any messages: on `n1`, on `n2`, on anything), `n2`
+still resolves to the very record `e2`.  (Without the hypothesis on the concatenations the two
+names are one store entry and the owner of `n1` owns `n2`: `collision_confers_authority`.) -/
+theorem owning_one_name_confers_no_authority_over_another
+    (hC : ∀ a, cfg.canon (cfg.canon a) = cfg.canon a) {st : State κ} {n1 n2 : Bytes}
+    {e1 e2 : Record} (ops : List Op)
+    (hH : NoHashCollision cfg (n1 :: n2 :: (storedNames st ++ ops.flatMap Op.names)))
+    (hI : Inv cfg st) (hS : CanonStored cfg st)
+    (h1 : getRecordByName cfg st n1 = some e1) (h2 : getRecordByName cfg st n2 = some e2)
+    (hdiff : (segments n1).reverse.flatten ≠ (segments n2).reverse.flatten)
+    (hown : e1.addr ≠ e2.addr)
+    (hs : ∀ op ∈ ops, cfg.canon op.signer = e1.addr ∧ op.signer ≠ cfg.authority) :
+    getNameKeyPrefix cfg n1 ≠ getNameKeyPrefix cfg n2 ∧
+      getRecordByName cfg (run cfg st ops) n2 = some e2 := by
+  constructor
+  · obtain ⟨k1, hk1, -⟩ := getRecordByName_some cfg h1
+    obtain ⟨k2, hk2, -⟩ := getRecordByName_some cfg h2
+    rw [hk1, hk2]
+    intro e
+    refine keys_ne_of_diff cfg (hH.mono cfg ?_) hk1 hk2 hdiff (by injection e)
+    intro x hx
+    rcases List.mem_cons.mp hx with rfl | hx
+    · exact List.mem_cons_self
+    · rw [List.mem_singleton.mp hx]; exact List.mem_cons_of_mem _ List.mem_cons_self
+  · refine name_changed_only_by_its_owner_or_gov cfg hC ops (hH.mono cfg ?_) hI hS h2 ?_
+    · intro x hx; exact List.mem_cons_of_mem _ (List.mem_cons_of_mem _ hx)
+    · intro op hop
+      obtain ⟨ha, hg⟩ := hs op hop
+      exact ⟨by rw [ha]; exact hown, hg⟩
 
 /-! ### the collision (negation witness) -/
 
@@ -577,6 +818,223 @@ theorem key_collision (cfg : Cfg κ) (h2 : cfg.minSeg = 2) (h32 : cfg.maxSeg = 3
     have v : validateName bcdea = true := by decide
     have s : splitDot bcdea = [[98, 99], [100, 101, 97]] := by decide
     simp [IsNormalized, normalize, e, v, s, h2, h32, h16]
+
+/-! ### the collision for every configured limit -/
+
+/-- a segment of lower-case letters only -/
+def Plain (s : Bytes) : Prop := ∀ c ∈ s, isLower c = true
+
+set_option maxRecDepth 4000 in
+theorem plain_facts : ∀ c : UInt8, isLower c = true →
+    c ≠ dot ∧ isSpace c = false ∧ isUpper c = false ∧ c ≠ dash := u8_forall (by decide)
+
+theorem plain_normSeg {s : Bytes} (h : Plain s) : normSeg s = s := by
+  have hsp : ∀ c ∈ s, isSpace c = false := fun c hc => (plain_facts c (h c hc)).2.1
+  have ht : trimSpace s = s := by
+    rw [trimSpace_eq]
+    have h1 : s.dropWhile isSpace = s := by
+      cases s with
+      | nil => rfl
+      | cons c cs => simp [List.dropWhile, hsp c (by simp)]
+    rw [h1, List.rdropWhile_eq_self_iff]
+    intro hl
+    simp [hsp _ (List.getLast_mem hl)]
+  unfold normSeg
+  rw [ht]
+  exact map_toLower_of_noUpper (fun c hc => (plain_facts c (h c hc)).2.2.1)
+
+theorem plain_dotfree {s : Bytes} (h : Plain s) : dot ∉ s :=
+  fun hm => (plain_facts dot (h dot hm)).1 rfl
+
+theorem plain_valid {s : Bytes} (h : Plain s) : validateNameSegment s = true := by
+  have hc : s.count dash = 0 := List.count_eq_zero.mpr fun hm => (plain_facts dash (h dash hm)).2.2.2 rfl
+  have ha : (s.all fun c => c == dash || isLower c || isDigit c) = true :=
+    List.all_eq_true.mpr fun c hc => by simp [h c hc]
+  simp [validateNameSegment, hc, ha]
+
+theorem splitDot_two {s1 s2 : Bytes} (h1 : Plain s1) (h2 : Plain s2) :
+    splitDot (s1 ++ dot :: s2) = [s1, s2] := by
+  have := splitDot_append_dotfree s1 (plain_dotfree h1) (dot :: s2) [] (splitDot s2) (splitDot_cons_dot s2)
+  rw [splitDot_dotfree_eq (plain_dotfree h2)] at this
+  simpa using this
+
+omit [DecidableEq κ] in
+/-- a name of two lower-case segments whose lengths are within the limits is a valid normalized name -/
+theorem isNormalized_two {s1 s2 : Bytes} (h1 : Plain s1) (h2 : Plain s2)
+    (l1 : cfg.minSeg ≤ s1.length ∧ s1.length ≤ cfg.maxSeg)
+    (l2 : cfg.minSeg ≤ s2.length ∧ s2.length ≤ cfg.maxSeg) (hl : 2 ≤ cfg.maxLevels) :
+    IsNormalized cfg (s1 ++ dot :: s2) := by
+  have hn : normalizeName (s1 ++ dot :: s2) = s1 ++ dot :: s2 := by
+    rw [normalizeName_eq, splitDot_two h1 h2]
+    simp [plain_normSeg h1, plain_normSeg h2, joinDot]
+  have hv : validateName (s1 ++ dot :: s2) = true := by
+    simp [validateName, splitDot_two h1 h2, plain_valid h1, plain_valid h2]
+  have e1 : ¬ s1.length < cfg.minSeg := by omega
+  have e2 : ¬ s2.length < cfg.minSeg := by omega
+  have e3 : ¬ s1.length > cfg.maxSeg := by omega
+  have e4 : ¬ s2.length > cfg.maxSeg := by omega
+  have e5 : ¬ 2 > cfg.maxLevels := by omega
+  simp [IsNormalized, normalize, hn, hv, splitDot_two h1 h2, List.findSome?, e1, e2, e3, e4, e5]
+
+theorem preimage_two {s1 s2 : Bytes} (h1 : Plain s1) (h2 : Plain s2) (n1 : s1 ≠ []) (n2 : s2 ≠ []) :
+    preimage (s1 ++ dot :: s2) = .ok (s2 ++ s1) := by
+  have t1 : trimSpace s1 = s1 := by have := trimSpace_normSeg s1; rwa [plain_normSeg h1] at this
+  have t2 : trimSpace s2 = s2 := by have := trimSpace_normSeg s2; rwa [plain_normSeg h2] at this
+  rw [preimage_eq, splitDot_two h1 h2]
+  simp [t1, t2, n1, n2]
+
+def aaa (k : Nat) : Bytes := List.replicate k 97
+def bbb (k : Nat) : Bytes := List.replicate k 98
+/-- `a…a.b…b` with `m+1` a's and `m` b's — `aaa.bb` for `m = 2` -/
+def collA (m : Nat) : Bytes := aaa (m + 1) ++ dot :: bbb m
+/-- `a…a.b…ba` with `m` a's, then `m` b's and one a — `aa.bba` for `m = 2` -/
+def collB (m : Nat) : Bytes := aaa m ++ dot :: (bbb m ++ [97])
+
+theorem plain_aaa (k : Nat) : Plain (aaa k) := by
+  intro c hc; rw [List.eq_of_mem_replicate hc]; decide
+theorem plain_bbb (k : Nat) : Plain (bbb k) := by
+  intro c hc; rw [List.eq_of_mem_replicate hc]; decide
+theorem plain_bbba (k : Nat) : Plain (bbb k ++ [97]) := by
+  intro c hc
+  rcases List.mem_append.mp hc with h | h
+  · exact plain_bbb k c h
+  · rw [List.mem_singleton.mp h]; decide
+
+omit [DecidableEq κ] in
+/-- NEGATION of "two different valid names never resolve to the same record" FOR EVERY CONFIGURED
+LIMIT that admits two levels and two different segment lengths: whenever `maxLevels ≥ 2` and some
+length `m ≥ 1` has `minSeg ≤ m` and `m + 1 ≤ maxSeg` (i.e. `max 1 minSeg < maxSeg`), the names
+`a^(m+1).b^m` and `a^m.b^m a` are two different names `Keeper.Normalize` accepts unchanged, both
+have a key, and — whatever the hash function — the same one (both pre-images are `b^m a^(m+1)`).
+`key_collision` is the instance of this pattern at the default limits. -/
+theorem key_collision_family (cfg : Cfg κ) (m : Nat) (hm : 1 ≤ m) (hmin : cfg.minSeg ≤ m)
+    (hmax : m + 1 ≤ cfg.maxSeg) (hlev : 2 ≤ cfg.maxLevels) :
+    IsNormalized cfg (collA m) ∧ IsNormalized cfg (collB m) ∧ collA m ≠ collB m ∧
+      preimage (collA m) = .ok (bbb m ++ aaa (m + 1)) ∧
+      preimage (collB m) = .ok (bbb m ++ aaa (m + 1)) ∧
+      getNameKeyPrefix cfg (collA m) = getNameKeyPrefix cfg (collB m) := by
+  have la : (aaa (m + 1)).length = m + 1 := by simp [aaa]
+  have la' : (aaa m).length = m := by simp [aaa]
+  have lb : (bbb m).length = m := by simp [bbb]
+  have lb' : (bbb m ++ [97]).length = m + 1 := by simp [bbb]
+  have p1 : preimage (collA m) = .ok (bbb m ++ aaa (m + 1)) :=
+    preimage_two (plain_aaa _) (plain_bbb _) (by intro h; rw [h] at la; simp at la)
+      (by intro h; rw [h] at lb; simp at lb; omega)
+  have p2 : preimage (collB m) = .ok (bbb m ++ aaa (m + 1)) := by
+    have := preimage_two (plain_aaa m) (plain_bbba m) (by intro h; rw [h] at la'; simp at la'; omega)
+      (by simp)
+    rw [collB, this]
+    simp [aaa, List.replicate_succ]
+  refine ⟨isNormalized_two cfg (plain_aaa _) (plain_bbb _) (by omega) (by omega) hlev,
+    isNormalized_two cfg (plain_aaa _) (plain_bbba _) (by omega) (by omega) hlev, ?_, p1, p2,
+    by simp [getNameKeyPrefix, p1, p2]⟩
+  intro h
+  have := congrArg (fun n => (splitDot n).map List.length) h
+  simp only [collA, collB, splitDot_two (plain_aaa _) (plain_bbb _),
+    splitDot_two (plain_aaa _) (plain_bbba _), List.map_cons, la, la', List.map_nil] at this
+  simp at this
+
+/-- the family is not empty at the default limits (m = 2 … 31), at the smallest limits that admit
+it (min 1, max 2, 2 levels), and for `minSeg = 0` -/
+example : collA 2 = [97, 97, 97, 46, 98, 98] ∧ collB 2 = [97, 97, 46, 98, 98, 97] := by decide
+example (cfg : Cfg κ) (h1 : cfg.minSeg = 1) (h2 : cfg.maxSeg = 2) (h3 : cfg.maxLevels = 2) :
+    getNameKeyPrefix cfg (collA 1) = getNameKeyPrefix cfg (collB 1) :=
+  (key_collision_family cfg 1 (by omega) (by omega) (by omega) (by omega)).2.2.2.2.2
+
+omit [DecidableEq κ] in
+/-- … and where NO collision exists (1): with at most ONE level, valid normalized names with the
+same key are the same name (if the hash does not collide on their two pre-images). -/
+theorem no_key_collision_single_level (hlev : cfg.maxLevels ≤ 1) {n1 n2 : Bytes}
+    (hH : NoHashCollision cfg [n1, n2]) (hn1 : IsNormalized cfg n1) (hn2 : IsNormalized cfg n2)
+    {k : κ} (h1 : getNameKeyPrefix cfg n1 = .ok k) (h2 : getNameKeyPrefix cfg n2 = .ok k) :
+    n1 = n2 := by
+  refine key_injective_normalized_partial cfg hH hn1 hn2 h1 h2 ?_
+  have one : ∀ n, IsNormalized cfg n → ∃ s, splitDot n = [s] := by
+    intro n hn
+    have hl := (normalize_within_limits cfg hn).2.2.2
+    match hs : splitDot n with
+    | [] => exact absurd hs (splitDot_ne_nil n)
+    | [s] => exact ⟨s, rfl⟩
+    | _ :: _ :: _ => rw [hs] at hl; simp at hl; omega
+  obtain ⟨s1, e1⟩ := one n1 hn1
+  obtain ⟨s2, e2⟩ := one n2 hn2
+  -- one segment each: the pre-image is the segment itself
+  have hs : segments n1 = segments n2 := by
+    cases hp1 : preimage n1 with
+    | error e => simp [getNameKeyPrefix, hp1, Except.map] at h1
+    | ok p1 =>
+      cases hp2 : preimage n2 with
+      | error e => simp [getNameKeyPrefix, hp2, Except.map] at h2
+      | ok p2 =>
+        have := (key_collision_iff_resegmentation cfg hH hp1 hp2).mp (by rw [h1, h2])
+        rw [segments_of_normalized cfg hn1, segments_of_normalized cfg hn2, e1, e2] at this ⊢
+        simpa using this
+  unfold profile; rw [hs]
+
+omit [DecidableEq κ] in
+/-- … (2): among names ALL of whose segments have one and the same length `ℓ ≥ 1` — in particular
+when `minSeg = maxSeg` and no segment is a UUID (the only segments exempt from `maxSeg`) — valid
+normalized names with the same key are the same name.  So a collision needs two levels AND
+two different segment lengths; `key_collision_family` gives one whenever the limits admit that
+with plain segments, `uuid_collision_fixed_length` one through the UUID exemption. -/
+theorem no_key_collision_uniform_length {n1 n2 : Bytes} (hH : NoHashCollision cfg [n1, n2])
+    (hn1 : IsNormalized cfg n1) (hn2 : IsNormalized cfg n2) {l : Nat} (hl : 1 ≤ l)
+    (u1 : ∀ seg ∈ splitDot n1, seg.length = l) (u2 : ∀ seg ∈ splitDot n2, seg.length = l)
+    {k : κ} (h1 : getNameKeyPrefix cfg n1 = .ok k) (h2 : getNameKeyPrefix cfg n2 = .ok k) :
+    n1 = n2 := by
+  refine key_injective_normalized_partial cfg hH hn1 hn2 h1 h2 ?_
+  have prof : ∀ n, IsNormalized cfg n → (∀ seg ∈ splitDot n, seg.length = l) →
+      profile n = List.replicate (splitDot n).length l ∧
+      ((segments n).reverse.flatten).length = (splitDot n).length * l := by
+    intro n hn hu
+    have hp : profile n = List.replicate (splitDot n).length l := by
+      unfold profile; rw [segments_of_normalized cfg hn]
+      exact List.eq_replicate_iff.mpr ⟨by simp, by
+        intro x hx; obtain ⟨seg, hseg, rfl⟩ := List.mem_map.mp hx; exact hu seg hseg⟩
+    refine ⟨hp, ?_⟩
+    rw [List.length_flatten, List.map_reverse]
+    have : (segments n).map List.length = profile n := rfl
+    rw [this, hp]; simp
+  obtain ⟨p1, f1⟩ := prof n1 hn1 u1
+  obtain ⟨p2, f2⟩ := prof n2 hn2 u2
+  cases hp1 : preimage n1 with
+  | error e => simp [getNameKeyPrefix, hp1, Except.map] at h1
+  | ok q1 =>
+    cases hp2 : preimage n2 with
+    | error e => simp [getNameKeyPrefix, hp2, Except.map] at h2
+    | ok q2 =>
+      have hf := (key_collision_iff_resegmentation cfg hH hp1 hp2).mp (by rw [h1, h2])
+      have hlen : (splitDot n1).length * l = (splitDot n2).length * l := by rw [← f1, ← f2, hf]
+      have : (splitDot n1).length = (splitDot n2).length := Nat.eq_of_mul_eq_mul_right (by omega) hlen
+      rw [p1, p2, this]
+
+def hex32 : Bytes := List.replicate 32 97                                    -- 32 × "a": a UUID in its 32-hex form
+def hex8x4 : Bytes := joinDot (List.replicate 8 (List.replicate 4 97))      -- "aaaa.aaaa.….aaaa", 8 levels
+
+omit [DecidableEq κ] in
+/-- … and `minSeg = maxSeg` does NOT exclude collisions: a segment that parses as a UUID is exempt
+from `maxSeg` (keeper.go:277), and the 32-hex-digit form consists of valid segment characters.  With
+`minSeg = maxSeg = 4` and 8 levels the one-segment name of 32 a's (a UUID) and the eight-level name
+`aaaa.aaaa.….aaaa` are both accepted by `Keeper.Normalize` and share their key for every hash. -/
+theorem uuid_collision_fixed_length (cfg : Cfg κ) (h4 : cfg.minSeg = 4) (h4' : cfg.maxSeg = 4)
+    (hl : 8 ≤ cfg.maxLevels) :
+    IsNormalized cfg hex32 ∧ IsNormalized cfg hex8x4 ∧ hex32 ≠ hex8x4 ∧
+      getNameKeyPrefix cfg hex32 = getNameKeyPrefix cfg hex8x4 := by
+  have p1 : preimage hex32 = .ok hex32 := by decide
+  have p2 : preimage hex8x4 = .ok hex32 := by decide
+  have l1 : ¬ 1 > cfg.maxLevels := by omega
+  have l8 : ¬ 8 > cfg.maxLevels := by omega
+  refine ⟨?_, ?_, by decide, by simp [getNameKeyPrefix, p1, p2]⟩
+  · have e : normalizeName hex32 = hex32 := by decide
+    have v : validateName hex32 = true := by decide
+    have s : splitDot hex32 = [hex32] := by decide
+    have u : isValidUUID hex32 = true := by decide
+    have ln : hex32.length = 32 := by decide
+    simp [IsNormalized, normalize, e, v, s, u, ln, h4, h4', l1]
+  · have e : normalizeName hex8x4 = hex8x4 := by decide
+    have v : validateName hex8x4 = true := by decide
+    have s : splitDot hex8x4 = List.replicate 8 (List.replicate 4 97) := by decide
+    simp [IsNormalized, normalize, e, v, s, h4, h4', l8]
 
 /-- the two names have different segment-length profiles (so `key_injective_partial` does not apply) -/
 example : profile abcde ≠ profile bcdea := by decide
@@ -658,9 +1116,66 @@ theorem reverse_lookup_spelling_before_fix :
 
 /-! ### non-vacuity -/
 
-/-- the hypotheses `Function.Injective cfg.H` and `Inv` are satisfiable -/
-example : Function.Injective wcfg.H := fun _ _ h => h
+/-- the hypotheses `NoHashCollision` and `Inv` are satisfiable — by a hash that is NOT injective:
+`tcfg.H` keeps the first 8 bytes of the pre-image (a finite-codomain-style truncation). -/
+def tcfg : Cfg Bytes :=
+  { H := fun p => p.take 8, authority := "G", addrOk := fun _ => true, hasAccount := fun _ => true }
+theorem trunc_not_injective : ¬ Function.Injective tcfg.H := by
+  intro h
+  have : ([1,2,3,4,5,6,7,8,9] : Bytes) = [1,2,3,4,5,6,7,8,10] := h (by decide)
+  exact absurd this (by decide)
+def tState : State Bytes :=
+  run tcfg {} [.root "G" de "A" false, .root "G" dea "B" true, .bind de "A" abc "A" false]
+example : NoHashCollision tcfg (de :: storedNames tState) := by decide
+example : NoHashCollision tcfg ((Op.root "G" abcde "A" true).names ++ storedNames tState) := by decide
+example : NoHashCollision tcfg ((Op.modify "A" abcde "C" true).names ++ storedNames tState) := by decide
+example : NoHashCollision tcfg (storedNames tState ++
+    [Op.modify "B" abcde "B" true, .delete abcde "B", .bind de "C" bc "C" false].flatMap Op.names) := by
+  decide
+example : NoHashCollision tcfg [abcde, bcdea] := by decide
+example : Inv tcfg tState := inv_reachable tcfg (gs := []) rfl _
 example : Inv wcfg witnessState := inv_reachable wcfg (gs := []) rfl _
+/-- the hypotheses of `owning_one_name_confers_no_authority_over_another` /
+`name_changed_only_by_its_owner_or_gov` / `messages_about_other_names_leave_name` hold on a concrete
+state and history (with the non-injective hash): A owns `abc.de`, B the restricted root `dea`; A
+modifies his own name, tries to modify and delete B's, and binds `bc.de` -/
+def aOps : List Op :=
+  [.modify "A" abcde "A" true, .modify "A" dea "A" false, .delete dea "A", .bind de "A" bc "A" false]
+example : NoHashCollision tcfg (abcde :: dea :: (storedNames tState ++ aOps.flatMap Op.names)) := by
+  decide
+example : CanonStored tcfg tState := by intro k r h; rfl
+example : getRecordByName tcfg tState abcde = some ⟨abcde, "A", false⟩ ∧
+    getRecordByName tcfg tState dea = some ⟨dea, "B", true⟩ := by decide
+example : (segments abcde).reverse.flatten ≠ (segments dea).reverse.flatten := by decide
+example : ∀ op ∈ aOps, tcfg.canon op.signer = "A" ∧ op.signer ≠ tcfg.authority := by decide
+/-- … and the history is no no-op: A's own name did change, a new name exists -/
+example : getRecordByName tcfg (run tcfg tState aOps) abcde = some ⟨abcde, "A", true⟩ ∧
+    (getRecordByName tcfg (run tcfg tState aOps) (bc ++ dot :: de)).isSome = true := by decide
+example : NoHashCollision tcfg (dea :: [Op.modify "G" abcde "C" true, .delete abcde "C"].flatMap Op.targets) ∧
+    ∀ op ∈ [Op.modify "G" abcde "C" true, .delete abcde "C"], ∀ t ∈ op.targets,
+      (segments t).reverse.flatten ≠ (segments dea).reverse.flatten := by decide
+/-- `root_binds_every_level` / `root_effect`: a root message that succeeds on `tState`, creating the
+level `bc.de` under the existing `de`, with the collision hypothesis satisfied -/
+example : NoHashCollision tcfg ((Op.root "G" (bc ++ dot :: de) "C" true).names ++ storedNames tState) ∧
+    (step tcfg tState (.root "G" (bc ++ dot :: de) "C" true)).toBool = true ∧
+    (Op.root "G" (bc ++ dot :: de) "C" true).targets = [bc ++ dot :: de, de] := by decide
+/-- `normalized_name_has_key`, `no_key_collision_uniform_length` (ℓ = 2), `no_key_collision_single_level` -/
+example : 1 ≤ wcfg.minSeg ∧ IsNormalized wcfg abcde :=
+  ⟨by decide, (key_collision wcfg rfl rfl rfl).1⟩
+example : IsNormalized wcfg (bc ++ dot :: de) ∧ ∀ seg ∈ splitDot (bc ++ dot :: de), seg.length = 2 :=
+  ⟨isNormalized_two wcfg (by unfold Plain; decide) (by unfold Plain; decide) (by decide) (by decide)
+    (by decide), by decide⟩
+example : ({ wcfg with maxLevels := 1 } : Cfg Bytes).maxLevels ≤ 1 ∧
+    IsNormalized ({ wcfg with maxLevels := 1 } : Cfg Bytes) de := by
+  refine ⟨by decide, ?_⟩
+  have e : normalizeName de = de := by decide
+  have v : validateName de = true := by decide
+  have s : splitDot de = [de] := by decide
+  have ln : de.length = 2 := rfl
+  simp [IsNormalized, normalize, e, v, s, ln, wcfg]
+/-- the idealised hypothesis of the earlier statements implies the finite one -/
+example (hH : Function.Injective cfg.H) (names : List Bytes) : NoHashCollision cfg names :=
+  noHashCollision_of_injective cfg hH names
 
 /-- each message kind succeeds on a concrete state (the `= .ok _` hypotheses are satisfiable) -/
 example : (step wcfg {} (.root "G" de "A" false)).toBool = true := by decide
